@@ -293,6 +293,26 @@ func c20Cases() []c20Case {
 	} {
 		add("graph/"+g.name, c20Case{result: "GC", build: g.build, extraTop: gdefs})
 	}
+	// package-level variables of type wire.ProviderSet that are not initialised by wire.NewSet (used or not by the injector)
+	for _, v := range []struct{ name, decl, use string }{
+		{"composite-literal", "var LitSet = Q.ProviderSet{}\n", ""},
+		{"composite-literal-used", "var LitSet = Q.ProviderSet{}\n", "LitSet, "},
+		{"zero-declared", "var ZeroSet Q.ProviderSet\n", ""},
+		{"pointer-deref", "var ptrSet = new(Q.ProviderSet)\n\nvar DerefSet = *ptrSet\n", ""},
+		{"func-result", "var CallSet = MakeSet()\n", ""},
+		{"alias-of-valid", "var AliasSet = SetVar\n", "AliasSet, NewS"},
+		{"paren-newset", "var ParenSet = (Q.NewSet(NewInt))\n", ""},
+		{"conversion", "type mySet = Q.ProviderSet\n\nvar ConvSet = mySet(Q.NewSet(NewInt))\n", ""},
+	} {
+		if c20OmitBadSets && v.name != "alias-of-valid" && v.name != "paren-newset" {
+			continue // an ill-formed top-level set by construction: wire check must report it, which is not a disagreement with gen
+		}
+		build := v.use + rest
+		if v.name == "alias-of-valid" {
+			build = v.use
+		}
+		add("set-variable/"+v.name, c20Case{build: build, extraTop: v.decl})
+	}
 	// generic injector
 	out = append(out, c20Case{id: "C20/generic-injector", extraTop: "", body: "\tpanic(wire.Build(NewInt, NewStr, NewS))\n", result: "S"})
 	return out
@@ -340,11 +360,41 @@ func checkC20(c *h.Check) {
 			}
 			return nil
 		}
+		genJudge := hcase.Judge
+		hcase.Judge = func(r *h.Result) []h.Violation {
+			vs := genJudge(r)
+			if r.LoadFailed || r.Crashed || r.TimedOut {
+				return vs
+			}
+			// the same package under wire check and wire show: no panic, and a failure carries a position
+			for _, ro := range []struct {
+				name  string
+				ran   bool
+				diags []string
+			}{{"check", r.CheckRan, r.CheckDiags}, {"show", r.ShowRan, r.ShowDiags}} {
+				if !ro.ran || len(ro.diags) == 0 {
+					continue
+				}
+				all := strings.Join(ro.diags, "\n")
+				if strings.Contains(all, "CRASH:") {
+					vs = append(vs, h.Violation{Symptom: ro.name + "-crash", Detail: "wire " + ro.name + " crashed or hung:\n" + clip(all, 1800)})
+				} else if !rePositioned.MatchString(all) {
+					vs = append(vs, h.Violation{Symptom: ro.name + "-no-position", Detail: "wire " + ro.name + " failed but no diagnostic carries a file:line:column position:\n" + clip(all, 1200)})
+				}
+			}
+			return vs
+		}
 		if c.NoteProgram(files) {
 			hc = append(hc, hcase)
 		}
 	}
+	if !c.Collect {
+		c.R.AlsoCheck, c.R.AlsoShow = true, true
+	}
 	results := c.JudgeAll(hc)
+	if !c.Collect {
+		c.R.AlsoCheck, c.R.AlsoShow = false, false
+	}
 	skipped := 0
 	for _, r := range results {
 		switch {
@@ -367,7 +417,7 @@ func checkC20(c *h.Check) {
 	c.Coverage["traces_validated_against_impl"] = len(hc) - skipped
 	c.Coverage["outcomes"] = outcomes.summary()
 	c.Coverage["skipped_illtyped"] = skipped
-	c.Coverage["rule"] = "every argument position of wire.Build / NewSet (41 expression forms), wire.Struct and wire.FieldsOf (12-13 first-argument spellings x 13 field-name spellings), wire.Bind (7 x 8 spellings), wire.Value (27 expression forms), wire.InterfaceValue (8), 21 injector result kinds with an error-returning provider (forces the zero-value expression), 9 injector body shapes; each with wire imported plainly, under an alias and with a dot import. Forms that Go's type checker rejects are counted as skipped. Oracle: exit 0 with output written and compiling, or failure with no panic/timeout and at least one diagnostic carrying file:line:column inside the package, and no output. Distinct = distinct rendered source."
+	c.Coverage["rule"] = "every argument position of wire.Build / NewSet (41 expression forms), wire.Struct and wire.FieldsOf (12-13 first-argument spellings x 13 field-name spellings), wire.Bind (7 x 8 spellings), wire.Value (27 expression forms), wire.InterfaceValue (8), 21 injector result kinds with an error-returning provider (forces the zero-value expression), 9 injector body shapes; each with wire imported plainly, under an alias and with a dot import. Forms that Go's type checker rejects are counted as skipped. package-level wire.ProviderSet variables not initialised by wire.NewSet; objects mentioned twice; ill-formed graphs. Oracle: exit 0 with output written and compiling, or failure with no panic/timeout and at least one diagnostic carrying file:line:column inside the package, and no output; wire check and wire show on the same tree never panic, and when they fail a diagnostic carries a position. Distinct = distinct rendered source."
 	if len(hc) > 0 && len(results) == len(hc) {
 		i := len(hc) / 2
 		c.Samples = append(c.Samples, map[string]interface{}{"case": hc[i].ID, "wire.go": hc[i].Files["wire.go"], "diagnostics": results[i].Root().Diags})
